@@ -4,6 +4,7 @@ libm, `dtparse`, non-ASCII case mapping and the clock are parameters (`Ext`).
 -/
 import AgModel.Record
 import AgModel.Fmt
+import AgModel.Display
 
 namespace Ag
 
@@ -18,17 +19,9 @@ structure Ext where
 
 namespace Value
 
-/-- `impl Display for Value` for the variants whose text is deterministic and modelled -/
-def display : Value → Outcome String
-  | none => .ok "None"
-  | bool b => .ok (if b then "true" else "false")
-  | int i => .ok (toString i)
-  | float f => .ok (F64.display f)
-  | str s => .ok s
-  | date _ => .unmodelled "Display(DateTime)"
-  | dur _ => .unmodelled "Display(Duration)"
-  | arr _ => .unmodelled "Display(Array)"
-  | obj _ => .unmodelled "Display(Obj)"
+/-- `impl Display for Value` (every variant: AgModel/Display.lean).  The result stays an `Outcome`:
+values the real code cannot hold (dates / durations outside chrono's range) are `.unmodelled`. -/
+def display (v : Value) : Outcome String := displayFull v
 
 end Value
 
